@@ -80,11 +80,12 @@ Proof.
 Qed.
 
 (** * (1) the lagging delete (finding F-23, repaired), every Go map order of the recording *)
-Definition lag_start : list Label := [LTarget 1 false; LConnUp 10 1; LChange [(1, x_ch "/a/b" "1")] true false; LRec (CtlTx 1) 9 (x_oracle COk)].
-Definition lag_rest (o : oracle) : list Label := skipn 4 (l_lag_c o).
+(* the first 23 labels (target, connection, the first change, four rounds with the OK oracle) create the configuration *)
+Definition lag_start : list Label := firstn 23 (l_lag_c (x_oracle_ord 0)).
+Definition lag_rest (o : oracle) : list Label := skipn 23 (l_lag_c o).
 
-Example lag_split ord : l_lag_c (x_oracle_ord ord) = lag_start ++ lag_rest (x_oracle_ord ord).
-Proof. reflexivity. Qed.
+Example lag_split : Forall (fun ord => l_lag_c (x_oracle_ord ord) = lag_start ++ lag_rest (x_oracle_ord ord)) ords6.
+Proof. repeat (apply List.Forall_cons; [vm_compute; reflexivity|]). apply List.Forall_nil. Qed.
 
 Example lag_start_conv : i_conv (x_run lag_start) 1.
 Proof.
@@ -99,12 +100,12 @@ Proof. repeat (apply List.Forall_cons; [vm_compute; reflexivity|]). apply List.F
 (* /a/b = 1, /a/c = 2 | delete /a | /a/b/d = 3 (beneath the tombstones of /a and /a/b) | rollback of the last change |
    connection lost and replaced: re-push in term 2 *)
 Definition big_start : list Label :=
-  [LTarget 1 false; LConnUp 10 1; LChange [(1, x_ch "/a/b" "1" ++ x_ch "/a/c" "2")] true false; LRec (CtlTx 1) 9 (x_oracle COk)].
+  [LTarget 1 false; LConnUp 10 1; LChange [(1, x_ch "/a/b" "1" ++ x_ch "/a/c" "2")] true false] ++ x_rounds 4 (x_oracle COk) 10 1 [1].
 Definition big_rest (o : oracle) : list Label :=
-  x_rounds 12 o 10 1 [1]
-  ++ [LChange [(1, x_del "/a")] true false] ++ x_rounds 12 o 10 1 [2]
-  ++ [LChange [(1, x_ch "/a/b/d" "3")] true false] ++ x_rounds 12 o 10 1 [3]
-  ++ [LRollback 3] ++ x_rounds 14 o 10 1 [4]
+  x_rounds 10 o 10 1 [1]
+  ++ [LChange [(1, x_del "/a")] true false] ++ x_rounds 12 o 10 1 [1; 2]
+  ++ [LChange [(1, x_ch "/a/b/d" "3")] true false] ++ x_rounds 12 o 10 1 [1; 2; 3]
+  ++ [LRollback 3] ++ x_rounds 20 o 10 1 [1; 2; 3; 4]
   ++ [LConnDown 10; LRec (CtlConn 10) 9 (x_oracle COk); LRec (CtlMaster 1) 9 (x_oracle COk); LConnUp 11 1]
   ++ x_rounds 4 (x_oracle COk) 11 1 [].
 
@@ -120,7 +121,7 @@ Proof. repeat (apply List.Forall_cons; [vm_compute; reflexivity|]). apply List.F
 (* what the run ends in (order 1): every transaction APPLIED, SYNCHRONIZED in term 2, nothing left on the device *)
 Example big_run_end :
   lag_summary (x_run (big_start ++ big_rest (x_oracle_ord 1))) =
-    ([(4, TApplied); (1, TApplied); (3, TApplied); (2, TApplied)], [(4, 4, CSynchronized, 2, 2, [], [])], [[]]).
+    ([(1, TApplied); (3, TApplied); (2, TApplied); (4, TApplied)], [(4, 4, CSynchronized, 2, 2, [], [])], [[]]).
 Proof. vm_compute. reflexivity. Qed.
 
 (* ... and, by the theorem, the device agrees with the applied values there *)
@@ -133,3 +134,34 @@ Proof.
   - vm_compute. reflexivity.
   - vm_compute. reflexivity.
 Qed.
+
+(** * Each hypothesis of wf_apply is needed: witnesses outside the domain (vm_compute) *)
+(* a live value beneath a tombstone in the applied values (only after an invocation cut between the map write and the
+   entry write, see Properties/C04.v (1)): re-creating a sibling drops the tombstone and the hidden value re-appears in
+   the record, not on the device *)
+Definition nlb_m : cmap := [pvd "/a" 1; pvl "/a/c" "2" 2].
+Definition nlb_ch : cmap := [pvl "/a/b" "0" 3].
+Example apply_sound_live_below_refuted :
+  wf_pair [] nlb_m = false /\ wfk nlb_m = true /\ P2PureApplyDefs.wf_change nlb_ch = true /\ idx_compat nlb_m nlb_ch = true /\
+  abs_dev_i [] = abs_app_i (overlay [] nlb_m) /\
+  payload 3 [] nlb_ch = Some (mkReq [] [(B "/a/b", B "0")]) /\
+  abs_dev_i (dev_apply [] (mkReq [] [(B "/a/b", B "0")])) = [(B "/a/b", B "0")] /\
+  abs_app_i (loaded overlay nil (record_applied 0 3 nlb_m (overlay [] nlb_m) [] nlb_ch)) = [(B "/a/b", B "0"); (B "/a/c", B "2")].
+Proof. repeat split; vm_compute; reflexivity. Qed.
+
+(* a change value carrying the index of the stored value with another content: store() skips the write *)
+Definition idx_m : cmap := [pvl "/a" "1" 5].
+Definition idx_ch : cmap := [pvl "/a" "2" 5].
+Example apply_sound_same_index_refuted :
+  wf_pair [] idx_m = true /\ P2PureApplyDefs.wf_change idx_ch = true /\ idx_compat idx_m idx_ch = false /\
+  abs_dev_i [(B "/a", B "1")] = abs_app_i (overlay [] idx_m) /\
+  payload 5 [] idx_ch = Some (mkReq [] [(B "/a", B "2")]) /\
+  abs_dev_i (dev_apply [(B "/a", B "1")] (mkReq [] [(B "/a", B "2")])) = [(B "/a", B "2")] /\
+  abs_app_i (loaded overlay nil (record_applied 0 5 idx_m (overlay [] idx_m) [] idx_ch)) = [(B "/a", B "1")].
+Proof. repeat split; vm_compute; reflexivity. Qed.
+
+(* the re-push needs no_live_below even inside one group: deletes go first, then the updates *)
+Example resync_live_below_refuted : exists r,
+  resync_payload nlb_m = [Some (mkReq [B "/a"] []); Some r] /\ wfk nlb_m = true /\ no_live_below nlb_m = false /\
+  abs_app_i nlb_m = [] /\ abs_dev_i (fold_left dev_apply [mkReq [B "/a"] []; r] []) = [(B "/a/c", B "2")].
+Proof. eexists. repeat split; vm_compute; reflexivity. Qed.
